@@ -11,7 +11,8 @@ THEOREMS = ["NakenVerif.Listing." + t for t in (
     "msp430_line_cells_exact", "riscv_line_cells_exact", "msp430_len_local", "msp430_advance_is_count", "riscv_len_local",
     "msp430_adjust_skips_exactly_the_pad", "riscv_call_exact_of_len4",
     "listing_bytes_true", "listing_complete_once", "listing_low_high_match", "listing_symbols_match",
-    "overwrite_counterexample", "top_of_memory_counterexample", "include_code_counterexample")]
+    "overwrite_counterexample", "top_of_memory_counterexample", "include_code_counterexample",
+    "unaligned_code_counterexample", "repeat_gap_counterexample")]
 RULE = ("programs: one program per case from tools/gen_listing.py (CPU from corpus/statements x shape: plain, instruction after "
         "odd-length data, .repeat of code/data/mixed/with a gap/behind odd data, reservations and alignments, several .org "
         "segments, 64 KiB page boundaries, macro bodies, .include files, data only (both byte orders), data runs that start "
